@@ -27,7 +27,9 @@ MassOf(K, f) ==
   LET Tot[i \in 0..fr.natoms] == IF i = 0 THEN 0
         ELSE LET at == fr.atoms[i] IN
              Tot[i - 1] + (IF at.el \in DOMAIN MassMilli THEN MassMilli[at.el] ELSE 0)
-                        + (IF Fits(at.el, at.ch, B2(i)) THEN Need(at.el, at.ch, B2(i)) * MassMilli["H"] ELSE 0)
+                        \* a hydrogen written on an aromatic ring atom ([nH]) stays; every other atom is completed by valence
+                        + (IF at.ar /\ at.hc > 0 THEN at.hc * MassMilli["H"]
+                           ELSE IF Fits(at.el, at.ch, B2(i)) THEN Need(at.el, at.ch, B2(i)) * MassMilli["H"] ELSE 0)
   IN Tot[fr.natoms]
 MassKnown(K, f) == \A i \in DOMAIN K.frags[f].atoms : K.frags[f].atoms[i].el \in DOMAIN MassMilli
 =============================================================================
